@@ -3,16 +3,16 @@
    A history is a list of (op, outputs): what happened to the server and what it sent because of
    it.  The acceptor keeps, per resource, the set of observers it considers registered together
    with what the property needs to know about each of them
-     ao_val / ao_chg : Observe value of the last message that carried one (registration response
+     acao_val / acao_chg : Observe value of the last message that carried one (registration response
                        or notification) and the number of changes of the resource since then;
-     ao_weak         : that last message was a registration response (a notification sent
+     acao_weak         : that last message was a registration response (a notification sent
                        afterwards may repeat its value: the registration may have come between a
                        change and the I/O step that reports it);
-     ao_run          : non-confirmable notifications since the last confirmable one;
-     ao_lastk        : ordinal of its last notification,
+     acao_run          : non-confirmable notifications since the last confirmable one;
+     acao_lastk        : ordinal of its last notification,
    and the confirmable notifications that are still being retransmitted.  It REJECTS when
      2  a notification / error response / 4.04 goes to somebody who is not registered,
-     3  a notification does not carry (ao_val + ao_chg) mod 2^24 - the resource's current counter,
+     3  a notification does not carry (acao_val + acao_chg) mod 2^24 - the resource's current counter,
      4  a notification repeats the value of the previous notification (no change in between),
      5  more than COAP_OBS_MAX_NON non-confirmable notifications in a row (resource not NON_ALWAYS),
      6  after a step of the I/O loop an observer still misses changes although its session has a
@@ -24,7 +24,7 @@
    session+token) or answering the latest notification of an observation, give-up of a confirmable
    notification, error-class response, session loss, resource deletion; a registration whose cache
    key equals that of an entry with another token replaces it.
-   [cf_strict] additionally counts an RST that answers ANY notification of the current
+   [accf_strict] additionally counts an RST that answers ANY notification of the current
    registration (the property as stated); libcoap only honours the two cases above.
 
    Soundness (what acceptance means, stated over histories) is proved in AcceptProofs.v; that
@@ -36,52 +36,52 @@ Local Open Scope Z_scope.
 
 Definition ob_M : Z := 16777216.
 
-Record ac_cfg := mk_cf { cf_modes : list Z; cf_nstart : Z; cf_max_non : Z; cf_strict : bool }.
+Record ac_cfg := ac_mk_cf { accf_modes : list Z; accf_nstart : Z; accf_max_non : Z; accf_strict : bool }.
 
-Record ac_obs := mk_ao {
-  ao_s : Z; ao_t : ob_tok; ao_key : ob_opts;
-  ao_val : Z; ao_chg : Z; ao_weak : bool; ao_run : Z; ao_lastk : Z;
-  ao_since : Z        (* ordinal of the first notification that can belong to this registration *)
+Record ac_obs := ac_mk_ao {
+  acao_s : Z; acao_t : ob_tok; acao_key : ob_opts;
+  acao_val : Z; acao_chg : Z; acao_weak : bool; acao_run : Z; acao_lastk : Z;
+  acao_since : Z        (* ordinal of the first notification that can belong to this registration *)
 }.
 
-Record ac_res := mk_ar { ar_id : Z; ar_obs : list ac_obs }.
-Record ac_sent := mk_sn { sn_k : Z; sn_r : Z; sn_s : Z; sn_t : ob_tok }.
+Record ac_res := ac_mk_ar { acar_id : Z; acar_obs : list ac_obs }.
+Record ac_sent := ac_mk_sn { acsn_k : Z; acsn_r : Z; acsn_s : Z; acsn_t : ob_tok }.
 
-Record ac_state := mk_as {
-  as_res : list ac_res;
-  as_fl : list ob_flight;
-  as_nk : Z;
-  as_sent : list ac_sent
+Record ac_state := ac_mk_as {
+  acas_res : list ac_res;
+  acas_fl : list ob_flight;
+  acas_nk : Z;
+  acas_sent : list ac_sent
 }.
 
 Inductive ac_result := AcOk (st : ac_state) | AcBad (code : Z).
 
 Definition ac_obs_is (s : Z) (t : ob_tok) (o : ac_obs) : bool :=
-  (ao_s o =? s) && ob_bytes_eqb (ao_t o) t.
+  (acao_s o =? s) && ob_bytes_eqb (acao_t o) t.
 Definition ac_obs_keyis (s : Z) (key : ob_opts) (o : ac_obs) : bool :=
-  (ao_s o =? s) && ob_opts_eqb (ao_key o) key.
+  (acao_s o =? s) && ob_opts_eqb (acao_key o) key.
 
 Fixpoint ac_mode_from (id : Z) (modes : list Z) (r : Z) : Z :=
   match modes with
   | [] => 0
   | m :: tl => if id =? r then m else ac_mode_from (id + 1) tl r
   end.
-Definition ac_mode (c : ac_cfg) (r : Z) : Z := ac_mode_from 0 (cf_modes c) r.
+Definition ac_mode (c : ac_cfg) (r : Z) : Z := ac_mode_from 0 (accf_modes c) r.
 
 Fixpoint ac_get (r : Z) (rs : list ac_res) : option ac_res :=
   match rs with
   | [] => None
-  | x :: tl => if ar_id x =? r then Some x else ac_get r tl
+  | x :: tl => if acar_id x =? r then Some x else ac_get r tl
   end.
 
 Fixpoint ac_upd (r : Z) (f : list ac_obs -> list ac_obs) (rs : list ac_res) : list ac_res :=
   match rs with
   | [] => []
-  | x :: tl => if ar_id x =? r then mk_ar (ar_id x) (f (ar_obs x)) :: tl else x :: ac_upd r f tl
+  | x :: tl => if acar_id x =? r then ac_mk_ar (acar_id x) (f (acar_obs x)) :: tl else x :: ac_upd r f tl
   end.
 
 Definition ac_set_res (st : ac_state) (rs : list ac_res) : ac_state :=
-  mk_as rs (as_fl st) (as_nk st) (as_sent st).
+  ac_mk_as rs (acas_fl st) (acas_nk st) (acas_sent st).
 
 Definition ac_del (s : Z) (t : ob_tok) (l : list ac_obs) : list ac_obs :=
   fst (ob_remove1 (ac_obs_is s t) l).
@@ -90,31 +90,31 @@ Definition ac_del (s : Z) (t : ob_tok) (l : list ac_obs) : list ac_obs :=
 
 Definition ac_refresh (s : Z) (t : ob_tok) (v : Z) (o : ac_obs) : ac_obs :=
   if ac_obs_is s t o
-  then mk_ao (ao_s o) (ao_t o) (ao_key o) v 0 true (ao_run o) (ao_lastk o) (ao_since o)
+  then ac_mk_ao (acao_s o) (acao_t o) (acao_key o) v 0 true (acao_run o) (acao_lastk o) (acao_since o)
   else o.
 
 Definition ac_replace_key (s : Z) (key : ob_opts) (l : list ac_obs) : list ac_obs :=
   match ob_find (ac_obs_keyis s key) l with
-  | Some old => ac_del s (ao_t old) l
+  | Some old => ac_del s (acao_t old) l
   | None => l
   end.
 
 Definition ac_register (st : ac_state) (r s : Z) (t : ob_tok) (o : ob_opts)
                        (outs : list ob_out) : ac_result :=
-  match ac_get r (as_res st) with
+  match ac_get r (acas_res st) with
   | None => match outs with [] => AcOk st | _ => AcBad 1 end
   | Some res =>
       match outs with
-      | [ORegResp r' s' t' v] =>
+      | [ObRegResp r' s' t' v] =>
           if (r' =? r) && (s' =? s) && ob_bytes_eqb t' t then
-            match ob_find (ac_obs_is s t) (ar_obs res) with
+            match ob_find (ac_obs_is s t) (acar_obs res) with
             | Some o1 =>
                 match v with
                 | Some v0 =>
-                    if v0 =? (ao_val o1 + ao_chg o1) mod ob_M
-                    then AcOk (ac_set_res st (ac_upd r (map (ac_refresh s t v0)) (as_res st)))
+                    if v0 =? (acao_val o1 + acao_chg o1) mod ob_M
+                    then AcOk (ac_set_res st (ac_upd r (map (ac_refresh s t v0)) (acas_res st)))
                     else AcBad 8
-                | None => AcOk (ac_set_res st (ac_upd r (ac_del s t) (as_res st)))
+                | None => AcOk (ac_set_res st (ac_upd r (ac_del s t) (acas_res st)))
                 end
             | None =>
                 let key := ob_key o in
@@ -122,10 +122,10 @@ Definition ac_register (st : ac_state) (r s : Z) (t : ob_tok) (o : ob_opts)
                 | Some v0 =>
                     if (0 <=? v0) && (v0 <? ob_M) then
                       AcOk (ac_set_res st
-                              (ac_upd r (fun l => mk_ao s t key v0 0 true 0 (-1) (as_nk st)
-                                                   :: ac_replace_key s key l) (as_res st)))
+                              (ac_upd r (fun l => ac_mk_ao s t key v0 0 true 0 (-1) (acas_nk st)
+                                                   :: ac_replace_key s key l) (acas_res st)))
                     else AcBad 9
-                | None => AcOk (ac_set_res st (ac_upd r (ac_replace_key s key) (as_res st)))
+                | None => AcOk (ac_set_res st (ac_upd r (ac_replace_key s key) (acas_res st)))
                 end
             end
           else AcBad 1
@@ -142,52 +142,52 @@ Definition ac_cancel_obs (s : Z) (t : ob_tok) (o : ob_opts) (l : list ac_obs) : 
 (* ------------------------------------------------------------------ one step of the I/O loop *)
 
 Definition ac_bump (o : ac_obs) : ac_obs :=
-  mk_ao (ao_s o) (ao_t o) (ao_key o) (ao_val o) (ao_chg o + 1) (ao_weak o) (ao_run o)
-        (ao_lastk o) (ao_since o).
+  ac_mk_ao (acao_s o) (acao_t o) (acao_key o) (acao_val o) (acao_chg o + 1) (acao_weak o) (acao_run o)
+        (acao_lastk o) (acao_since o).
 
 (* state of the walk over the outputs of a step *)
-Record ac_walk := mk_aw {
-  aw_res : list ac_res; aw_fl : list ob_flight; aw_nk : Z; aw_sent : list ac_sent;
-  aw_cnt : list (Z * Z)
+Record ac_walk := ac_mk_aw {
+  acaw_res : list ac_res; acaw_fl : list ob_flight; acaw_nk : Z; acaw_sent : list ac_sent;
+  acaw_cnt : list (Z * Z)
 }.
 
 Definition ac_note (w : ac_walk) (rs : list ac_res) (k r s : Z) (t : ob_tok) (con ok : bool)
   : ac_walk :=
-  mk_aw rs (if con then aw_fl w ++ [mk_fl s k t ok] else aw_fl w) (k + 1)
-        (mk_sn k r s t :: aw_sent w) (if con then ob_ca_inc (aw_cnt w) s else aw_cnt w).
+  ac_mk_aw rs (if con then acaw_fl w ++ [ob_mk_fl s k t ok] else acaw_fl w) (k + 1)
+        (ac_mk_sn k r s t :: acaw_sent w) (if con then ob_ca_inc (acaw_cnt w) s else acaw_cnt w).
 
 Definition ac_notified (s : Z) (t : ob_tok) (v : Z) (run k : Z) (o : ac_obs) : ac_obs :=
   if ac_obs_is s t o
-  then mk_ao (ao_s o) (ao_t o) (ao_key o) v 0 false run k (ao_since o)
+  then ac_mk_ao (acao_s o) (acao_t o) (acao_key o) v 0 false run k (acao_since o)
   else o.
 
 Definition ac_out_step (c : ac_cfg) (w : ac_walk) (o : ob_out) : ac_walk + Z :=
   match o with
-  | ONotify k r s t v con =>
-      if negb (k =? aw_nk w) then inr 7 else
-      match ac_get r (aw_res w) with
+  | ObNotify k r s t v con =>
+      if negb (k =? acaw_nk w) then inr 7 else
+      match ac_get r (acaw_res w) with
       | None => inr 2
       | Some res =>
-          match ob_find (ac_obs_is s t) (ar_obs res) with
+          match ob_find (ac_obs_is s t) (acar_obs res) with
           | None => inr 2
           | Some e =>
-              if negb (v =? (ao_val e + ao_chg e) mod ob_M) then inr 3
-              else if negb ((1 <=? ao_chg e) || ao_weak e) then inr 4
+              if negb (v =? (acao_val e + acao_chg e) mod ob_M) then inr 3
+              else if negb ((1 <=? acao_chg e) || acao_weak e) then inr 4
               else
-                let run := if con then 0 else ao_run e + 1 in
-                if negb (ac_mode c r =? 2) && (cf_max_non c <? run) then inr 5
-                else inl (ac_note w (ac_upd r (map (ac_notified s t v run k)) (aw_res w))
+                let run := if con then 0 else acao_run e + 1 in
+                if negb (ac_mode c r =? 2) && (accf_max_non c <? run) then inr 5
+                else inl (ac_note w (ac_upd r (map (ac_notified s t v run k)) (acaw_res w))
                                   k r s t con true)
           end
       end
-  | OErr k r s t con =>
-      if negb (k =? aw_nk w) then inr 7 else
-      match ac_get r (aw_res w) with
+  | ObErr k r s t con =>
+      if negb (k =? acaw_nk w) then inr 7 else
+      match ac_get r (acaw_res w) with
       | None => inr 2
       | Some res =>
-          match ob_find (ac_obs_is s t) (ar_obs res) with
+          match ob_find (ac_obs_is s t) (acar_obs res) with
           | None => inr 2
-          | Some _ => inl (ac_note w (ac_upd r (ac_del s t) (aw_res w)) k r s t con false)
+          | Some _ => inl (ac_note w (ac_upd r (ac_del s t) (acaw_res w)) k r s t con false)
           end
       end
   | _ => inr 1
@@ -204,36 +204,36 @@ Fixpoint ac_outs (c : ac_cfg) (w : ac_walk) (outs : list ob_out) : ac_walk + Z :
 
 (* end of the step: whoever still misses changes must sit behind a full NSTART window *)
 Definition ac_settled (c : ac_cfg) (cnt : list (Z * Z)) (o : ac_obs) : bool :=
-  (ao_chg o =? 0) || (cf_nstart c <=? ob_ca_get cnt (ao_s o)).
+  (acao_chg o =? 0) || (accf_nstart c <=? ob_ca_get cnt (acao_s o)).
 
 Definition ac_all_settled (c : ac_cfg) (cnt : list (Z * Z)) (rs : list ac_res) : bool :=
-  forallb (fun r => forallb (ac_settled c cnt) (ar_obs r)) rs.
+  forallb (fun r => forallb (ac_settled c cnt) (acar_obs r)) rs.
 
 Definition ac_iostep (c : ac_cfg) (st : ac_state) (ca : list (Z * Z)) (outs : list ob_out)
   : ac_result :=
-  match ac_outs c (mk_aw (as_res st) (as_fl st) (as_nk st) (as_sent st) ca) outs with
+  match ac_outs c (ac_mk_aw (acas_res st) (acas_fl st) (acas_nk st) (acas_sent st) ca) outs with
   | inr e => AcBad e
   | inl w =>
-      if ac_all_settled c (aw_cnt w) (aw_res w)
-      then AcOk (mk_as (aw_res w) (aw_fl w) (aw_nk w) (aw_sent w))
+      if ac_all_settled c (acaw_cnt w) (acaw_res w)
+      then AcOk (ac_mk_as (acaw_res w) (acaw_fl w) (acaw_nk w) (acaw_sent w))
       else AcBad 6
   end.
 
 (* ------------------------------------------------------------------ ACK / RST / give-up *)
 
 Definition ac_del_everywhere (s : Z) (t : ob_tok) (rs : list ac_res) : list ac_res :=
-  map (fun r => mk_ar (ar_id r) (ac_del s t (ar_obs r))) rs.
+  map (fun r => ac_mk_ar (acar_id r) (ac_del s t (acar_obs r))) rs.
 
 Definition ac_has (s : Z) (t : ob_tok) (rs : list ac_res) : bool :=
-  existsb (fun r => match ob_find (ac_obs_is s t) (ar_obs r) with Some _ => true | None => false end)
+  existsb (fun r => match ob_find (ac_obs_is s t) (acar_obs r) with Some _ => true | None => false end)
           rs.
 
 Fixpoint ac_rst_by_last (s k : Z) (rs : list ac_res) : list ac_res :=
   match rs with
   | [] => []
   | r :: tl =>
-      match ob_find (fun o => (ao_lastk o =? k) && (ao_s o =? s)) (ar_obs r) with
-      | Some o => mk_ar (ar_id r) (ac_del s (ao_t o) (ar_obs r)) :: tl
+      match ob_find (fun o => (acao_lastk o =? k) && (acao_s o =? s)) (acar_obs r) with
+      | Some o => ac_mk_ar (acar_id r) (ac_del s (acao_t o) (acar_obs r)) :: tl
       | None => r :: ac_rst_by_last s k tl
       end
   end.
@@ -241,17 +241,17 @@ Fixpoint ac_rst_by_last (s k : Z) (rs : list ac_res) : list ac_res :=
 Fixpoint ac_sent_find (k : Z) (l : list ac_sent) : option ac_sent :=
   match l with
   | [] => None
-  | x :: tl => if sn_k x =? k then Some x else ac_sent_find k tl
+  | x :: tl => if acsn_k x =? k then Some x else ac_sent_find k tl
   end.
 
 (* the property as stated: an RST for any notification of the current registration counts *)
 Definition ac_rst_strict (s k : Z) (st : ac_state) (rs : list ac_res) : list ac_res :=
-  match ac_sent_find k (as_sent st) with
+  match ac_sent_find k (acas_sent st) with
   | Some n =>
-      if sn_s n =? s then
-        ac_upd (sn_r n)
-               (fun l => match ob_find (ac_obs_is s (sn_t n)) l with
-                         | Some o => if ao_since o <=? k then ac_del s (sn_t n) l else l
+      if acsn_s n =? s then
+        ac_upd (acsn_r n)
+               (fun l => match ob_find (ac_obs_is s (acsn_t n)) l with
+                         | Some o => if acao_since o <=? k then ac_del s (acsn_t n) l else l
                          | None => l
                          end) rs
       else rs
@@ -260,50 +260,50 @@ Definition ac_rst_strict (s k : Z) (st : ac_state) (rs : list ac_res) : list ac_
 
 Definition ac_rst (c : ac_cfg) (st : ac_state) (s k : Z) : ac_state :=
   let st1 :=
-    match ob_fl_find s k (as_fl st) with
+    match ob_fl_find s k (acas_fl st) with
     | Some f =>
-        mk_as (ac_del_everywhere s (fl_tok f) (as_res st))
-              (ob_fl_cancel s (fl_tok f) (ob_fl_remove s k (as_fl st))) (as_nk st) (as_sent st)
-    | None => ac_set_res st (ac_rst_by_last s k (as_res st))
+        ac_mk_as (ac_del_everywhere s (obfl_tok f) (acas_res st))
+              (ob_fl_cancel s (obfl_tok f) (ob_fl_remove s k (acas_fl st))) (acas_nk st) (acas_sent st)
+    | None => ac_set_res st (ac_rst_by_last s k (acas_res st))
     end in
-  if cf_strict c then ac_set_res st1 (ac_rst_strict s k st (as_res st1)) else st1.
+  if accf_strict c then ac_set_res st1 (ac_rst_strict s k st (acas_res st1)) else st1.
 
 Definition ac_confailed (st : ac_state) (s k : Z) : ac_state :=
-  match ob_fl_find s k (as_fl st) with
+  match ob_fl_find s k (acas_fl st) with
   | None => st
   | Some f =>
-      let fl1 := ob_fl_remove s k (as_fl st) in
-      mk_as (ac_del_everywhere s (fl_tok f) (as_res st))
-            (if ac_has s (fl_tok f) (as_res st) then ob_fl_cancel s (fl_tok f) fl1 else fl1)
-            (as_nk st) (as_sent st)
+      let fl1 := ob_fl_remove s k (acas_fl st) in
+      ac_mk_as (ac_del_everywhere s (obfl_tok f) (acas_res st))
+            (if ac_has s (obfl_tok f) (acas_res st) then ob_fl_cancel s (obfl_tok f) fl1 else fl1)
+            (acas_nk st) (acas_sent st)
   end.
 
 Definition ac_lost (st : ac_state) (s : Z) : ac_state :=
-  mk_as (map (fun r => mk_ar (ar_id r) (filter (fun o => negb (ao_s o =? s)) (ar_obs r)))
-             (as_res st))
-        (filter (fun f => negb (fl_sess f =? s)) (as_fl st)) (as_nk st) (as_sent st).
+  ac_mk_as (map (fun r => ac_mk_ar (acar_id r) (filter (fun o => negb (acao_s o =? s)) (acar_obs r)))
+             (acas_res st))
+        (filter (fun f => negb (obfl_sess f =? s)) (acas_fl st)) (acas_nk st) (acas_sent st).
 
 Fixpoint ac_drop (r : Z) (rs : list ac_res) : list ac_res :=
   match rs with
   | [] => []
-  | x :: tl => if ar_id x =? r then tl else x :: ac_drop r tl
+  | x :: tl => if acar_id x =? r then tl else x :: ac_drop r tl
   end.
 
 Fixpoint ac_gone_ok (r : Z) (l : list ac_obs) (outs : list ob_out) : bool :=
   match outs with
   | [] => true
-  | OGone r' s t :: tl =>
+  | ObGone r' s t :: tl =>
       (r' =? r) && (match ob_find (ac_obs_is s t) l with Some _ => true | None => false end)
       && ac_gone_ok r l tl
   | _ :: _ => false
   end.
 
 Definition ac_delete (st : ac_state) (r : Z) (outs : list ob_out) : ac_result :=
-  match ac_get r (as_res st) with
+  match ac_get r (acas_res st) with
   | None => match outs with [] => AcOk st | _ => AcBad 1 end
   | Some res =>
-      if ac_gone_ok r (ar_obs res) outs
-      then AcOk (ac_set_res st (ac_drop r (as_res st) ++ [mk_ar r []]))
+      if ac_gone_ok r (acar_obs res) outs
+      then AcOk (ac_set_res st (ac_drop r (acas_res st) ++ [ac_mk_ar r []]))
       else AcBad 2
   end.
 
@@ -315,18 +315,18 @@ Definition ac_quiet (outs : list ob_out) (st : ac_state) : ac_result :=
 Definition ac_step (c : ac_cfg) (st : ac_state) (e : ob_op * list ob_out) : ac_result :=
   let '(op, outs) := e in
   match op with
-  | OpRegister r s t o => ac_register st r s t o outs
-  | OpCancel r s t o =>
-      ac_quiet outs (ac_set_res st (ac_upd r (ac_cancel_obs s t o) (as_res st)))
-  | OpChange r => ac_quiet outs (ac_set_res st (ac_upd r (map ac_bump) (as_res st)))
-  | OpIoStep ca => ac_iostep c st ca outs
-  | OpAck s k =>
-      ac_quiet outs (mk_as (as_res st) (ob_fl_remove s k (as_fl st)) (as_nk st) (as_sent st))
-  | OpRst s k => ac_quiet outs (ac_rst c st s k)
-  | OpConFailed s k => ac_quiet outs (ac_confailed st s k)
-  | OpSetErr _ _ => ac_quiet outs st
-  | OpSessionLost s => ac_quiet outs (ac_lost st s)
-  | OpDeleteResource r _ => ac_delete st r outs
+  | ObOpRegister r s t o => ac_register st r s t o outs
+  | ObOpCancel r s t o =>
+      ac_quiet outs (ac_set_res st (ac_upd r (ac_cancel_obs s t o) (acas_res st)))
+  | ObOpChange r => ac_quiet outs (ac_set_res st (ac_upd r (map ac_bump) (acas_res st)))
+  | ObOpIoStep ca => ac_iostep c st ca outs
+  | ObOpAck s k =>
+      ac_quiet outs (ac_mk_as (acas_res st) (ob_fl_remove s k (acas_fl st)) (acas_nk st) (acas_sent st))
+  | ObOpRst s k => ac_quiet outs (ac_rst c st s k)
+  | ObOpConFailed s k => ac_quiet outs (ac_confailed st s k)
+  | ObOpSetErr _ _ => ac_quiet outs st
+  | ObOpSessionLost s => ac_quiet outs (ac_lost st s)
+  | ObOpDeleteResource r _ => ac_delete st r outs
   end.
 
 (* result: the final state, or the index of the rejected entry and the reason *)
@@ -343,10 +343,10 @@ Fixpoint ac_run (c : ac_cfg) (st : ac_state) (i : Z) (tr : list (ob_op * list ob
 Fixpoint ac_init_res (id : Z) (modes : list Z) : list ac_res :=
   match modes with
   | [] => []
-  | _ :: tl => mk_ar id [] :: ac_init_res (id + 1) tl
+  | _ :: tl => ac_mk_ar id [] :: ac_init_res (id + 1) tl
   end.
 
-Definition ac_init (c : ac_cfg) : ac_state := mk_as (ac_init_res 0 (cf_modes c)) [] 0 [].
+Definition ac_init (c : ac_cfg) : ac_state := ac_mk_as (ac_init_res 0 (accf_modes c)) [] 0 [].
 
 Definition ac_accepts (c : ac_cfg) (tr : list (ob_op * list ob_out)) : bool :=
   match ac_run c (ac_init c) 0 tr with inl _ => true | inr _ => false end.
